@@ -371,6 +371,15 @@ func c11Results(arrival []int64) []vegeta.Result {
 	t0 := time.Unix(1_600_000_000, 0).UTC()
 	for i, l := range arrival {
 		rs[i] = vegeta.Result{Attack: "c11", Seq: uint64(i), Code: 200, Timestamp: t0.Add(time.Duration(i) * time.Millisecond), Latency: time.Duration(l), Method: "GET", URL: "http://127.0.0.1/"}
+		// a realistic mix: failures with repeated error texts have latencies like any other result
+		switch (i + len(arrival)) % 5 {
+		case 1:
+			rs[i].Code, rs[i].Error = 500, "500 Internal Server Error"
+		case 2:
+			rs[i].Code, rs[i].Error = 0, "connection refused"
+		case 3:
+			rs[i].Code, rs[i].Error, rs[i].BytesIn = 404, "404 Not Found", 12
+		}
 	}
 	return rs
 }
